@@ -73,7 +73,8 @@ fn cell(i: usize, j: usize) -> f64 {
     if j == 0 {
         i as f64
     } else {
-        (i * 8 + j) as f64 + 0.5
+        // in floating point: a corrupted id cell must not overflow the harness's own arithmetic
+        i as f64 * 8.0 + j as f64 + 0.5
     }
 }
 const FOLD_BASE: f64 = 4096.0; // 2^12: (fold+1)*4096 + id stays exact in f32 for n, k <= 300
